@@ -271,6 +271,8 @@ func c13Render(e ast.Expr, subst map[string]string) string {
 		return c13Render(x.X, subst) + "." + x.Sel.Name
 	case *ast.ParenExpr:
 		return "(" + c13Render(x.X, subst) + ")"
+	case *ast.StarExpr:
+		return "*" + c13Render(x.X, subst)
 	case *ast.BinaryExpr:
 		return c13Render(x.X, subst) + " " + x.Op.String() + " " + c13Render(x.Y, subst)
 	case *ast.UnaryExpr:
@@ -432,17 +434,22 @@ func init() {
 //
 // site   = "<dir>/<file>:<Recv.>Func"
 // atomic = derived from the BODY of M (metadata.go, write_atomic_linux.go, by
-//          the transitive closure over same-package calls): M reaches
-//          writeAtomicAt (temp file + renameat, see writeAtomicSteps) and
-//          reaches no os.WriteFile / os.OpenFile / os.Create
+//
+//	the transitive closure over same-package calls): M reaches
+//	writeAtomicAt (temp file + renameat, see writeAtomicSteps) and
+//	reaches no os.WriteFile / os.OpenFile / os.Create
+//
 // next   = the first call after the write, in source order within the same
-//          function, that publishes the record or starts the job that
-//          overwrites it: WriteTime(<marker>), UpdateJournal(OutsFile),
-//          runChunk, runJoin, skip; "" when there is none.
+//
+//	function, that publishes the record or starts the job that
+//	overwrites it: WriteTime(<marker>), UpdateJournal(OutsFile),
+//	runChunk, runJoin, skip; "" when there is none.
+//
 // before = the last such call that DEFINITELY precedes the write: earlier in the
-//          source and in a block that encloses the write (same block or an
-//          ancestor); "" when there is none.  A write moved behind its
-//          completion marker shows up here.
+//
+//	source and in a block that encloses the write (same block or an
+//	ancestor); "" when there is none.  A write moved behind its
+//	completion marker shows up here.
 func init() {
 	addFact(fact{
 		name:   "allOutsWriters",
@@ -715,6 +722,142 @@ func init() {
 				o[i] = fmt.Sprintf("(%s, %s, %v, %s, %s)", leanStr(s.Site), leanStr(s.Method), s.Atomic, leanStr(s.Next), leanStr(s.Before))
 			}
 			return "[" + joinComma(o) + "]", sites, nil
+		},
+	})
+}
+
+// ---- keys that are not legal file names are refused with an error ----
+
+// c13IllegalKeyBranches: the `if err := …IsLegalUnixFilename(x); err != nil { … }` statements
+// below n: (argument rendered, body appends to errs, body continues the loop).
+func c13IllegalKeyBranches(n ast.Node) (out []struct {
+	arg           string
+	appends, cont bool
+}) {
+	ast.Inspect(n, func(m ast.Node) bool {
+		ifs, ok := m.(*ast.IfStmt)
+		if !ok || ifs.Init == nil {
+			return true
+		}
+		as, ok := ifs.Init.(*ast.AssignStmt)
+		if !ok || len(as.Rhs) != 1 {
+			return true
+		}
+		call, ok := as.Rhs[0].(*ast.CallExpr)
+		if !ok || len(call.Args) != 1 {
+			return true
+		}
+		name := ""
+		switch f := call.Fun.(type) {
+		case *ast.SelectorExpr:
+			name = f.Sel.Name
+		case *ast.Ident:
+			name = f.Name
+		}
+		if name != "IsLegalUnixFilename" {
+			return true
+		}
+		if b, ok := ifs.Cond.(*ast.BinaryExpr); !ok || b.Op.String() != "!=" {
+			return true
+		}
+		e := struct {
+			arg           string
+			appends, cont bool
+		}{arg: c13Render(call.Args[0], nil)}
+		ast.Inspect(ifs.Body, func(x ast.Node) bool {
+			switch y := x.(type) {
+			case *ast.BranchStmt:
+				if y.Tok.String() == "continue" {
+					e.cont = true
+				}
+			case *ast.AssignStmt:
+				if len(y.Lhs) == 1 && len(y.Rhs) == 1 {
+					if id, ok := y.Lhs[0].(*ast.Ident); ok && id.Name == "errs" {
+						if c, ok := y.Rhs[0].(*ast.CallExpr); ok {
+							if f, ok := c.Fun.(*ast.Ident); ok && f.Name == "append" {
+								e.appends = true
+							}
+						}
+					}
+				}
+			}
+			return true
+		})
+		out = append(out, e)
+		return true
+	})
+	return
+}
+
+func init() {
+	// postProcessMappedKeyCheck: in the TypedMapType clause of Fork.postProcess the loop over the
+	// fork keys starts with `if err := syntax.IsLegalUnixFilename(<range key>); err != nil {` whose
+	// body appends to errs and continues (the fork is not moved, its record entry is kept).
+	addFact(fact{
+		name:   "postProcessMappedKeyCheck",
+		leanTy: "Bool",
+		deflt:  "false",
+		extract: func(repo string) (string, interface{}, error) {
+			_, f, err := parseFile(repo, "martian/core/post_process.go")
+			if err != nil {
+				return "", nil, err
+			}
+			fd := findMethod(f, "Fork", "postProcess")
+			if fd == nil {
+				return "", nil, fmt.Errorf("Fork.postProcess not found")
+			}
+			var clause *ast.CaseClause
+			ast.Inspect(fd.Body, func(n ast.Node) bool {
+				if cc, ok := n.(*ast.CaseClause); ok && len(cc.List) == 1 && strings.Contains(c13Render(cc.List[0], nil), "TypedMapType") {
+					clause = cc
+				}
+				return true
+			})
+			if clause == nil {
+				return "", nil, fmt.Errorf("Fork.postProcess: TypedMapType clause not found")
+			}
+			var rng *ast.RangeStmt
+			ast.Inspect(clause, func(n ast.Node) bool {
+				if r, ok := n.(*ast.RangeStmt); ok && rng == nil {
+					rng = r
+				}
+				return rng == nil
+			})
+			if rng == nil {
+				return "", nil, fmt.Errorf("Fork.postProcess: loop over the fork keys not found")
+			}
+			key := c13Render(rng.Key, nil)
+			for _, b := range c13IllegalKeyBranches(rng.Body) {
+				if b.arg == key && b.appends && b.cont {
+					return "true", true, nil
+				}
+			}
+			return "false", false, nil
+		},
+	})
+	// postProcessIllegalKeyIsError: moveOutDir's branch for a typed-map key that is not a legal
+	// file name appends to errs (the entry is skipped AND the failure is reported).
+	addFact(fact{
+		name:   "postProcessIllegalKeyIsError",
+		leanTy: "Bool",
+		deflt:  "false",
+		extract: func(repo string) (string, interface{}, error) {
+			_, f, err := parseFile(repo, "martian/core/post_process.go")
+			if err != nil {
+				return "", nil, err
+			}
+			fd := findFunc(f, "moveOutDir")
+			if fd == nil {
+				return "", nil, fmt.Errorf("moveOutDir not found")
+			}
+			bs := c13IllegalKeyBranches(fd.Body)
+			if len(bs) != 1 {
+				return "", nil, fmt.Errorf("moveOutDir: expected one IsLegalUnixFilename branch, found %d", len(bs))
+			}
+			if bs[0].appends {
+				return "true", true, nil
+			}
+			return "false", false, nil
 		},
 	})
 }
